@@ -39,6 +39,7 @@ def run(tier):
         from . import richardson_extract as RE
         for levels in (2, 3, 4):
             R.under_contract(RE.verify_common_interval(src, reg, levels, PID))
+        R.under_contract(RE.check_factory(src, reg, PID, levels=(2, 3, 4)))
         for fi in IC.verify_helpers(src, reg, PID):
             R.under_contract(fi)
         R.under_contract(src.func(IC.F, "OdeSystem.integrate"))
